@@ -410,6 +410,8 @@ func (store *KeyStore) WriteKeyFile(filename string, data []byte, mode os.FileMo
 	if err != nil {
 		return err
 	}
+	// the previous key file has just become a historical one
+	store.forgetHistoricalPrivateKeyFilenames(filename)
 	return nil
 }
 
@@ -451,7 +453,7 @@ var errCacheMissHistoricalFilenames = errors.New("cache doesn't contain historic
 func (store *KeyStore) getCachedHistoricalPrivateKeyFilenames(id string) ([]string, error) {
 	key := cacheKeyPrefix + id
 	value, ok := store.cache.Get(key)
-	if !ok {
+	if !ok || value == nil {
 		return nil, errCacheMissHistoricalFilenames
 	}
 	paths := &fs.HistoricalPaths{}
@@ -471,6 +473,13 @@ func (store *KeyStore) cacheHistoricalPrivateKeyFilenames(id string, paths []str
 	key := cacheKeyPrefix + id
 	store.cache.Add(key, serialized)
 	return nil
+}
+
+// forgetHistoricalPrivateKeyFilenames drops the cached list of current and rotated files of the key file at path.
+// It must be called whenever that set of files changes, otherwise the stale list hides rotated keys until Reset.
+func (store *KeyStore) forgetHistoricalPrivateKeyFilenames(path string) {
+	// same key as GetHistoricalPrivateKeyFilenames uses (filepath.Join cleans the path)
+	store.cache.Add(cacheKeyPrefix+filepath.Clean(path), nil)
 }
 
 // GetHistoricalPrivateKeyFilenames return filenames for current and rotated keys
@@ -1003,6 +1012,7 @@ func (store *KeyStore) destroyKeyWithFilename(filename string) error {
 	// Purge private key data from cache too.
 	store.cache.Add(filename, nil)
 	store.cache.Add(filename+".pub", nil)
+	store.forgetHistoricalPrivateKeyFilenames(store.GetPrivateKeyFilePath(filename))
 
 	// Remove key files. It's okay if they are already removed (or never existed).
 	// Keystore v1 does not differentiate between 'destroying' and 'removing' keys
@@ -1023,6 +1033,7 @@ func (store *KeyStore) destroyKeyWithFilename(filename string) error {
 func (store *KeyStore) destroySymmetricKeyWithFilename(filename string) error {
 	// Purge key data from cache too.
 	store.cache.Add(filename, nil)
+	store.forgetHistoricalPrivateKeyFilenames(store.GetPrivateKeyFilePath(getSymmetricKeyName(filename)))
 
 	// Remove key files. It's okay if they are already removed (or never existed).
 	// Keystore v1 does not differentiate between 'destroying' and 'removing' keys
@@ -1340,6 +1351,7 @@ func (store *KeyStore) destroyRotatedKeyByIndex(path string, index int) error {
 	if err != nil && !os.IsNotExist(err) {
 		return err
 	}
+	store.forgetHistoricalPrivateKeyFilenames(path)
 
 	return nil
 }
